@@ -39,11 +39,14 @@ static Snap snap(uint32_t k, int j) {
 }
 void h_init_determined(void) {
   /* the binary: header word + image words (+ possibly more bytes), same for both runs */
-  size_t words = nondet_size(); __CPROVER_assume(words <= MEMORY_SIZE_WORDS);
-  g_file_words = words; g_file_header = (uint32_t)words;
+  /* header word h (image fits the simulated memory), `present` words actually in the file after the header: the file may
+     be cut short (present < h) or carry debug tables (present > h) */
+  size_t hdr = nondet_size(); __CPROVER_assume(hdr <= MEMORY_SIZE_WORDS);
+  size_t present = nondet_size(); __CPROVER_assume(present <= MEMORY_SIZE_WORDS + 250000);
+  size_t words = hdr < present ? hdr : present;          /* what read() delivers into memory */
+  g_file_words = words; g_file_header = (uint32_t)hdr;
   g_file_image = malloc((words ? words : 1) * sizeof(uint32_t)); __CPROVER_assume(g_file_image != NULL);
-  size_t extra = nondet_size(); __CPROVER_assume(extra <= 1000000);
-  g_file_size = 4 + 4 * words + extra;
+  g_file_size = 4 + 4 * present + (nondet_size() & 3);
   size_t cex_maxcycles = nondet_size();
   uint32_t cex_k = nondet_u32(); __CPROVER_assume(cex_k < MEMORY_SIZE_WORDS);
   int j = nondet_int(); __CPROVER_assume(j >= 0 && j < 8);
@@ -145,7 +148,7 @@ def main(chk, replay_file):
                    "boost::format rendering and ostream<< only produce text (EV_FMT/EV_ARG keep argument evaluation, drop rendering)",
                    "lookupSymbol replaced by its contract here (enforced in C15)"]
     chk.assumptions = [
-        "image announced by the header is present in the file and fits the 200000-word memory (load() performs no check; larger headers overflow the array: outside the property's 'all images' as produced by the toolchain)",
+        "the image announced by the header fits the 200000-word memory (load() performs no check; larger headers overflow the array: outside the property's 'all images' as produced by the toolchain); the file may be shorter than the header announces (read() then delivers fewer words, the rest of memory stays zero) or longer (debug tables)",
         "whole-run determinism = induction over steps: equal determined states + equal inputs give equal successor states (C02 step contract is a function of state and input)",
         "instr/instrEnum need no initialisation: the step harness havocs them and proves the post-state independent of them",
         "std::map debugInfoMap lookup returns the entry's own offset (unique symbol names)",
